@@ -57,3 +57,11 @@ package grpcv3
 //@ func newService$1
 //@   props C01
 //@   ensures ret0 != nil
+
+// C13: "expose the same request view to the pipeline, including ... cookies": the cookie accessor of
+// the Envoy context yields exactly what net/http's parser - which the HTTP services use - yields for
+// the request's Cookie header line (httpCookie1, specs/nethttp.spec).
+//@ func (*RequestContext).Cookie
+//@   props C13
+//@   ensures !has(r.reqHeaders, "Cookie") ==> ret0 == ""
+//@   ensures has(r.reqHeaders, "Cookie") ==> ret0 == httpCookie1(r.reqHeaders["Cookie"], name)
